@@ -52,8 +52,49 @@ instance (s : Shape) (a b x y : Rat) : Decidable (inside s a b x y) := by
 instance (s : Shape) (a b x y : Rat) : Decidable (onBorder s a b x y) := by
   cases s <;> unfold onBorder <;> infer_instance
 
+/-! ## Rotation into the area frame (EN 302 931: the abscissa of the shape points along the azimuth)
+
+The receiver is given by its offsets (north, east) from the area centre in the LOCAL tangent frame of the centre
+(metres; the projection from WGS-84 is float glue outside Lean).  The azimuth θ (degrees clockwise from North) enters
+through an abstract unit vector `(c, s)` = (cos θ, sin θ), `c² + s² = 1`, over the rationals. -/
+
+/-- the point's coordinates in the area frame: abscissa along the azimuth direction `(c north, s east)`, ordinate along
+`(−s north, c east)` -/
+def toFrame (c s north east : Rat) : Rat × Rat := (north * c + east * s, -north * s + east * c)
+
+/-- what the code computes: `calculate_distance` returns `(x, y) = (−north, east)` (its x axis points south) and
+`rotate_to_area_frame` returns `(x·cos − y·sin, x·sin + y·cos)` -/
+def codeFrame (c s north east : Rat) : Rat × Rat :=
+  ((-north) * c - east * s, (-north) * s + east * c)
+
+/-- F of a point given in the local (north, east) frame of the centre, for an area of azimuth `(c, s)` -/
+def FvalLocal (sh : Shape) (a b c s north east : Rat) : Rat :=
+  Fval sh a b (toFrame c s north east).1 (toFrame c s north east).2
+
+/-- `gn_geometric_function_f` after the projection: F on the code's own frame coordinates -/
+def FvalCode (sh : Shape) (a b c s north east : Rat) : Rat :=
+  Fval sh a b (codeFrame c s north east).1 (codeFrame c s north east).2
+
+/-- **membership in the rotated shape, written from EN 302 931 independently of `toFrame`**: the area is the
+axis-aligned shape (semi-axis `a` along the abscissa) turned so that its abscissa points along the azimuth; the point
+(north, east) belongs to it iff it is the image `u·(c, s) + v·(−s, c)` of a point `(u, v)` of the axis-aligned shape -/
+def insideRotated (sh : Shape) (a b c s north east : Rat) : Prop :=
+  ∃ u v : Rat, north = u * c - v * s ∧ east = u * s + v * c ∧ inside sh a b u v
+
+/-- on the border of the rotated shape -/
+def onBorderRotated (sh : Shape) (a b c s north east : Rat) : Prop :=
+  ∃ u v : Rat, north = u * c - v * s ∧ east = u * s + v * c ∧ onBorder sh a b u v
+
+/-- exact (cos, sin) of the four azimuths whose sine and cosine are rational among the integer degrees -/
+def quarterCS (quarter : Nat) : Rat × Rat :=
+  match quarter % 4 with
+  | 0 => (1, 0)       -- θ = 0°
+  | 1 => (0, 1)       -- θ = 90°
+  | 2 => (-1, 0)      -- θ = 180°
+  | _ => (0, -1)      -- θ = 270°
+
 /-- rotation of a point given as (north, east) offsets from the centre into the area frame of azimuth θ, for the
-    four azimuths whose sine and cosine are rational (used by the witness theorems only) -/
+    four azimuths whose sine and cosine are rational (= `toFrame (quarterCS q)`, theorem `toFrameQuarter_eq`) -/
 def toFrameQuarter (quarter : Nat) (north east : Rat) : Rat × Rat :=
   match quarter % 4 with
   | 0 => (north, east)          -- θ = 0°   : abscissa points north
@@ -61,8 +102,9 @@ def toFrameQuarter (quarter : Nat) (north east : Rat) : Rat × Rat :=
   | 2 => (-north, -east)        -- θ = 180°
   | _ => (-east, north)         -- θ = 270°
 
-/-- the code before fix C07-F1: `area.angle` was ignored, F was evaluated on the unrotated offsets -/
-def FvalUnrotated (s : Shape) (a b north east : Rat) : Rat := Fval s a b north east
+/-- the code before fix C07-F1: `area.angle` was ignored, i.e. F was evaluated on the output of `calculate_distance`
+as if the azimuth were 0° — the code's frame with `(c, s) = (1, 0)` whatever the azimuth of the area -/
+def FvalUnrotated (s : Shape) (a b north east : Rat) : Rat := FvalCode s a b 1 0 north east
 
 /-! ## Area size control (§B.3) -/
 
@@ -147,5 +189,111 @@ def recvGAC (i : RxIn) : List Action :=
   else match i.se with
     | some (true, fSe) => if 0 ≤ fSe then [] else if i.rhl ≤ 1 then [] else [Action.forwardNonArea]
     | _ => if i.rhl ≤ 1 then [] else [Action.forwardNonArea]
+
+/-- the transmissions a forwarding verdict results in -/
+def fwdActs : Fwd → List Action
+  | .areaForwarding => [Action.forwardArea]
+  | .nonAreaForwarding => [Action.forwardNonArea]
+  | .discard => []
+
+/-- SE_POS_VALID / "sender inside or at border" of a sender PV given as (PAI, F(sender)) -/
+def sePai (se : Option (Bool × Rat)) : Bool := match se with | some (p, _) => p | none => false
+def seIn (se : Option (Bool × Rat)) : Bool := match se with | some (_, f) => decide (0 ≤ f) | none => false
+
+/-! ## Packet level: from the packet's area fields, the receiver's position and its location table to the decision
+
+The WGS-84 → metres projection (`Router.calculate_distance`) and the trigonometry (`math.cos/sin(math.radians(angle))`)
+are abstract parameters: every statement below holds for EVERY projection `proj` and every table of unit vectors. -/
+
+/-- WGS-84 position in 1/10 µdeg -/
+structure Pos where
+  lat : Int
+  lon : Int
+  deriving DecidableEq, Repr
+
+/-- destination area as carried in the GBC/GAC extended header -/
+structure GeoArea where
+  shape : Shape
+  a : Nat
+  b : Nat
+  centre : Pos
+  az : Nat
+  deriving DecidableEq, Repr
+
+/-- the float glue, abstract: `proj centre p` = (north, east) metres of `p` relative to `centre`;
+`cos az`, `sin az` = cosine / sine of the azimuth given in degrees -/
+structure Glue where
+  proj : Pos → Pos → Rat × Rat
+  cos : Nat → Rat
+  sin : Nat → Rat
+
+/-- the trigonometric table consists of unit vectors -/
+def Glue.UnitCS (g : Glue) : Prop := ∀ az, g.cos az * g.cos az + g.sin az * g.sin az = 1
+
+/-- `gn_geometric_function_f(hst, area, lat, lon)` -/
+def fAt (g : Glue) (A : GeoArea) (p : Pos) : Rat :=
+  FvalCode A.shape A.a A.b (g.cos A.az) (g.sin A.az) (g.proj A.centre p).1 (g.proj A.centre p).2
+
+/-- the position lies inside or on the border of the destination area (EN 302 931, rotated shape) -/
+def insideArea (g : Glue) (A : GeoArea) (p : Pos) : Prop :=
+  insideRotated A.shape A.a A.b (g.cos A.az) (g.sin A.az) (g.proj A.centre p).1 (g.proj A.centre p).2
+
+/-- location table entry as far as Annex D is concerned -/
+structure LocTE where
+  pos : Pos
+  pai : Bool
+  deriving DecidableEq, Repr
+
+/-- a received GBC / GAC packet: area, remaining hop limit on the wire, GN address of the SOURCE (SO PV) -/
+structure GeoPkt where
+  area : GeoArea
+  rhl : Nat
+  so : Nat
+
+/-- the receiving station: position, `itsGnMaxGeoAreaSize`, PDR verdict per source, location table -/
+structure Station where
+  ego : Pos
+  maxKm2 : Nat
+  pdrExceeded : Nat → Bool
+  locT : Nat → Option LocTE
+
+/-- whose location-table entry plays the role of Annex D's sender position vector PV_SE -/
+inductive SeKey
+  /-- the code as it is: the packet's SOURCE (`gbc_extended_header.so_pv.gn_addr`, router.py gn_data_forward_gbc /
+      gn_data_indicate_gac) — the link layer hands over no sender address (known finding C07-KF1) -/
+  | source
+  /-- EN 302 636-4-1 Annex D: the SENDER, i.e. the previous hop the frame was received from -/
+  | sender
+  deriving DecidableEq, Repr
+
+/-- `RxIn` of a packet `pk` received by station `st` from link-layer sender `sender` -/
+def rxInOf (g : Glue) (k : SeKey) (st : Station) (pk : GeoPkt) (sender : Nat) : RxIn :=
+  { fEgo := fAt g pk.area st.ego
+    rhl := pk.rhl
+    oversize := oversize pk.area.shape pk.area.a pk.area.b st.maxKm2
+    pdrExceeded := st.pdrExceeded pk.so
+    se := (st.locT (match k with | .source => pk.so | .sender => sender)).map
+            (fun e => (e.pai, fAt g pk.area e.pos)) }
+
+/-- `gn_data_indicate_gbc` on a whole packet -/
+def recvGBCpkt (g : Glue) (k : SeKey) (st : Station) (pk : GeoPkt) (sender : Nat) : List Action :=
+  recvGBC (rxInOf g k st pk sender)
+
+/-- `gn_data_indicate_gac` on a whole packet -/
+def recvGACpkt (g : Glue) (k : SeKey) (st : Station) (pk : GeoPkt) (sender : Nat) : List Action :=
+  recvGAC (rxInOf g k st pk sender)
+
+/-- SE_POS_VALID of Annex D for the entry `e` -/
+def sePosValid (e : Option LocTE) : Bool := match e with | some x => x.pai | none => false
+
+/-- "sender inside or at the border" (F(sender) ≥ 0; false when there is no entry) -/
+def seInside (g : Glue) (A : GeoArea) (e : Option LocTE) : Bool :=
+  match e with | some x => decide (0 ≤ fAt g A x.pos) | none => false
+
+/-- flat test glue for the witnesses: 1 unit = 1 m, quarter-turn azimuths -/
+def flatGlue : Glue :=
+  { proj := fun c p => ((p.lat - c.lat : Int), (p.lon - c.lon : Int))
+    cos := fun az => (quarterCS (az / 90)).1
+    sin := fun az => (quarterCS (az / 90)).2 }
 
 end FlexModel.Geo.Area
